@@ -534,6 +534,20 @@ func (e *Exec) violate(key, what string, extra string) {
 		return
 	}
 	e.out.Violate(xvlib.Violation{Key: key, What: what, Ops: append([]string{}, e.caseOps...), Impl: lastN(e.caseOut, 3), Extra: extra})
+	// a ledger / state invariant that breaks AFTER an operation of this history reported failure is also a trace that
+	// failed operation left behind (C05), unless the same history without the failed operations breaks it too —
+	// which the C04 / C01 checks decide
+	// (not in histories with a fabricated block - generated transaction citing a version that does not exist, in-block
+	// conflicts - that only its producer applies: what such a block leaves behind says nothing about the failed operation)
+	if !strings.HasPrefix(key, "failed-") && !strings.HasPrefix(key, "after-failed-op:") && key != "panic" && len(e.badBlocks) == 0 {
+		for i, a := range e.caseOut {
+			if i < len(e.caseOps) && (a == "fail" || strings.HasPrefix(a, "fail:")) && !strings.Contains(e.caseOps[i], "fault=1") {
+				e.out.Violate(xvlib.Violation{Key: "after-failed-op:" + key, What: "after an operation that reported failure (" + e.caseOps[i] + "): " + what,
+					Ops: append([]string{}, e.caseOps...), Impl: lastN(e.caseOut, 3), Extra: extra})
+				break
+			}
+		}
+	}
 }
 
 func lastN(s []string, n int) []string {
